@@ -222,6 +222,27 @@ def run(tier):
                 "wfile 0 %s %s" % (pth, common.hx(c2)), "setoff 0 0", "setoff 1 0"] + fc(c2) + ["sumoff 0", "sumoff 1"]
         cases.append(cmds)
         meta.append(("rewritten", nl, how, variant, pth, 0))
+    # files read by someone who is NOT their owner (an installed or shared source file): the script drops to an unprivileged uid first.
+    # A world-readable file of another user assembles like the string; a file without read permission for others is the "unreadable
+    # file" of the statement (as root - which is what the checks run as - no file is unreadable) and must yield EXIT_FAILURE
+    ocases, ometa = [], []  # (run in processes of their own: the rest of a driver process stays unprivileged after the drop)
+    odir = os.path.join(wd, "owned-by-root")
+    os.makedirs(odir, exist_ok=True)
+    os.chmod(wd, 0o755)
+    os.chmod(odir, 0o755)
+    otext = "mov rax, 0x7fffffff\nlea r15, [rax+rsp]\nadd rax, rbx\nret\n"
+    for fname, mode in (("readable.asm", 0o644), ("unreadable.asm", 0o600), ("readonly.asm", 0o444), ("noperm.asm", 0o000)):
+        with open(os.path.join(odir, fname), "w") as f:
+            f.write(otext)
+        os.chmod(os.path.join(odir, fname), mode)
+    for fname, readable in (("readable.asm", True), ("unreadable.asm", False), ("readonly.asm", True), ("noperm.asm", False)):
+        for variant in ("file", "filecnt"):
+            pth = os.path.join(odir, fname)
+            cmds = ["wrap reset", "new 0 int", "new 1 int", "dropuid 0 65534"]
+            cmds += ["file 0 %s" % pth, "asm 1 %s" % common.hx(otext)] if variant == "file" else ["filecnt 0 8 %s" % pth, "cnt 1 8 %s" % common.hx(otext)]
+            cmds += ["sumoff 0", "sumoff 1", "setoff 0 0", "asm 0 %s" % common.hx("ret"), "sumoff 0"]
+            ocases.append(cmds)
+            ometa.append(("otheruser", fname, readable, variant, pth, 0))
     # several files one after the other on the SAME instance (longer, then shorter, then empty, line-aligned or not): what an
     # earlier file call left behind (a cached mapping, a stale tail) must not show in a later one
     made = [(m[4], m[1]) for m in meta if m[0] == "content" and m[3] == "file" and not m[2].startswith(("raw", "name"))]
@@ -287,7 +308,9 @@ def run(tier):
         cmds = ["new 0 int", "asm 0 %s" % common.hx(prog), "setoff 0 %d" % o1, "bin 0 %s" % out, "setoff 0 %d" % o2, "sumoff 0", "bin 0 %s" % out, "dump 0 0 %d" % o2]
         cases.append(cmds)
         meta.append(("bin2", o2, o1, "bin", out))
-    res = common.run_cases(binary, cases, tag="c19")
+    res = common.run_cases(binary, cases, tag="c19") + common.run_cases(binary, ocases, tag="c19o")
+    cases = cases + ocases
+    meta = meta + ometa
     stats = {"content_cases": 0, "sizes": len(sizes), "page_multiple_sizes": sum(1 for s in sizes if s and s % PAGE == 0), "empty_files": 0, "badpath_cases": 0, "bin_cases": 0, "guarded_mappings": 0,
              "file_rc0": 0, "file_rc1": 0}
     meta = [tuple(m) + ((0,) if len(m) == 5 else ()) for m in meta]
@@ -317,6 +340,25 @@ def run(tier):
                 v.distinct((a, b, variant))
                 if v.cov["evaluations"] % 150 == 1:
                     v.sample({"size": a, "ending": b, "entry": variant, "rc": f[1], "offset": f[3]})
+        elif kind == "otheruser":
+            stats["other_user_cases"] = stats.get("other_user_cases", 0) + 1
+            u = recs[3].split()
+            if u[0] != "U" or u[1] != "0" or u[2] != "65534":
+                v.inconclusive.append({"why": "could not drop to an unprivileged user: %s" % recs[3], "case": case["key"]})
+                continue
+            f, s_, s0, s1 = recs[4].split(), recs[5].split(), recs[6].split(), recs[7].split()
+            if b:  # readable
+                if f[1] != s_[1] or f[3] != s_[3] or s0[1:] != s1[1:] or (variant == "filecnt" and f[4] != s_[4]):
+                    v.violation(case, "other-user:rc:file=%s,string=%s" % (f[1], s_[1]) if f[1] != s_[1] else "other-user:offset/bytes/count-differ", "%s %s | %s %s" % (recs[4], recs[6], recs[5], recs[7]))
+                    continue
+            else:
+                if f[1] == "0":
+                    v.violation(case, "unreadable-file-accepted", recs[4])
+                    continue
+                if recs[9].split()[1] != "0" or recs[10].split()[1] != "1":
+                    v.violation(case, "instance-unusable-after-unreadable-file", " | ".join(recs[8:11]))
+                    continue
+            v.distinct((kind, a, variant))
         elif kind == "rewritten":
             stats["rewritten_file_cases"] = stats.get("rewritten_file_cases", 0) + 1
             bad = None
@@ -382,7 +424,7 @@ def run(tier):
                 v.distinct((kind, off, b, os.path.basename(path)))
     v.cov["rule"] = ("file contents of EVERY size 0..64 and every size within +/-16 of 1, 2 and 3 pages x 6 endings (newline, none, inside a comment, inside an instruction, a complete instruction / ret as last line without newline; CRLF lines inside) x both file entry points, plus valid programs with byte-level damage (byte order marks and other prefixes, any byte value 1..255 inserted / replaced at the beginning, the end, line starts or anywhere, odd line separators), "
                      "differentially against the string entry points on the same content under the same settings (option combination, chunk fitting, start offset; the contents contain option-sensitive lines) (rc, offset, count, FNV of the code); ld --wrap mmap puts a PROT_NONE page right after every non-executable mapping the "
-                     "library creates, so a missing terminator faults deterministically; the same file reached through symbolic links (chain, relative, symlinked directory), a hard link, './' '//' 'dir/..' components, blanks and UTF-8 in the name, a 220-character path, and /dev/null; missing / directory / ENOTDIR paths must fail and leave the instance usable; asm_create_bin_file at offsets 0,1,2,19,4095..4097,6000,20000,65535..65537,2^20+5 must equal [0,offset), also onto existing longer / shorter files, through a symlink, and twice to the same path (more code; offset moved back); the same path read twice by one instance with the file rewritten in between (same length with one digit changed, longer, shorter, empty); sequences of 2-6 file calls of (mostly) decreasing size, ending with an empty file, on ONE instance, each step compared with the string entry point")
+                     "library creates, so a missing terminator faults deterministically; the same file reached through symbolic links (chain, relative, symlinked directory), a hard link, './' '//' 'dir/..' components, blanks and UTF-8 in the name, a 220-character path, and /dev/null; files read after dropping to an unprivileged uid: a readable file of another owner equals the string, a file without read permission yields EXIT_FAILURE and leaves the instance usable; missing / directory / ENOTDIR paths must fail and leave the instance usable; asm_create_bin_file at offsets 0,1,2,19,4095..4097,6000,20000,65535..65537,2^20+5 must equal [0,offset), also onto existing longer / shorter files, through a symlink, and twice to the same path (more code; offset moved back); the same path read twice by one instance with the file rewritten in between (same length with one digit changed, longer, shorter, empty); sequences of 2-6 file calls of (mostly) decreasing size, ending with an empty file, on ONE instance, each step compared with the string entry point")
     v.cov["exhaustive"] = True
     v.cov.update(stats)
     return v.finish(None, stats["content_cases"] > 300 and stats["guarded_mappings"] > 100, "too few file cases / guard never active: %r" % stats)
